@@ -387,6 +387,26 @@ impl Monitor for C18 {
                         ans[k].2.push(x)
                     }
                 }
+                // retire one live iterator at random - often an older one while younger ones stay
+                // alive and further calls follow (lifetimes that are not nested)
+                if toks.len() + ans.len() >= 2 && rng.chance(1, 3) {
+                    if !toks.is_empty() && (ans.is_empty() || rng.chance(1, 2)) {
+                        let k = rng.below(toks.len());
+                        let (oi2, it, mut got) = toks.remove(k);
+                        got.extend(it);
+                        if Res::Tokens(Ok(got.clone())) != expected[oi2] {
+                            return Outcome::Violated(vec![Finding::new("interleaved_iterator_result_differs", format!("{:?}", got), format!("{:?} ({})", expected[oi2], describe(&ops[oi2], &pool_idx)))]);
+                        }
+                    } else if !ans.is_empty() {
+                        let k = rng.below(ans.len());
+                        let (oi2, it, mut got) = ans.remove(k);
+                        got.extend(it);
+                        if Res::Entries(Ok(got.clone())) != expected[oi2] {
+                            return Outcome::Violated(vec![Finding::new("interleaved_iterator_result_differs", format!("{:?}", got), format!("{:?} ({})", expected[oi2], describe(&ops[oi2], &pool_idx)))]);
+                        }
+                    }
+                    obs.count("iterators_retired_out_of_order");
+                }
             }
             obs.add("iterators_kept_alive_across_calls", (toks.len() + ans.len()) as u64);
             // drain everything that is still alive, in reverse order of opening
